@@ -5,7 +5,9 @@
 
   Go maps are association lists keyed by event ID / (type, state_key).  Wherever Go ranges over a map the
   model uses first-insertion order; the property theorems (C11) show that the RESULT SET does not depend
-  on that choice.  Loops over the (acyclic) auth graph take fuel = number of events supplied.
+  on that choice.  Loops over the auth graph take fuel = number of events supplied (+ 1 or 2), which is enough for
+  every input, cyclic or not: closures add at least one new event per round, the two mainline recursions never
+  descend into an event they are inside of.
 -/
 import VModel.Auth
 namespace V.StateRes
@@ -257,27 +259,36 @@ def reverseTopoAuth (authMap : List Event) (createEv : Option Event) (evs : List
 
 /-! ## Mainline -/
 
-/-- `createPowerLevelMainline`: every power-levels auth ancestor is recursed into, each prepended on entry -/
-def mainlineIter (authMap : List Event) : Nat → Event → List Event → List Event
-  | 0, _, acc => acc
-  | fuel + 1, e, acc =>
+/-- `createPowerLevelMainline`: every power-levels auth ancestor is recursed into, each prepended on entry.
+    `path` = the IDs of the power-levels events the iterator is currently inside (the Go closure's `visiting` set,
+    filled before a descent and emptied after it): an event is not descended into from within itself, so cyclic
+    `auth_events` (room versions 1 and 2: the sender chooses the event IDs) end the walk instead of looping.
+    For an acyclic auth map the guard never fires (`VProofs/StateResSpecMainline.lean`), and the fuel
+    `|auth map| + 2` is never exhausted, cyclic or not (`VProofs/StateResNoPanic.lean`: the path holds distinct IDs of
+    the auth map). -/
+def mainlineIter (authMap : List Event) : Nat → List ID → Event → List Event → List Event
+  | 0, _, _, acc => acc
+  | fuel + 1, path, e, acc =>
     (e.authEventIDs.filterMap (findByID authMap)).foldl
-      (fun a p => if isPLEvent p then mainlineIter authMap fuel p a else a) (e :: acc)
+      (fun a p => if isPLEvent p && !path.contains p.eventID then mainlineIter authMap fuel (p.eventID :: path) p a else a)
+      (e :: acc)
 
 def createMainline (authMap : List Event) (resolvedPL : Option Event) : List Event :=
   match resolvedPL with
   | none => []
-  | some pl => mainlineIter authMap (authMap.length + 2) pl []
+  | some pl => mainlineIter authMap (authMap.length + 2) [] pl []
 
 /-- position map: later positions overwrite earlier ones -/
 def mainlinePos (mainline : List Event) (id : ID) : Option Nat :=
   (mainline.zipIdx.foldl (fun (acc : Option Nat) (x : Event × Nat) => if x.1.eventID == id then some x.2 else acc) none)
 
 /-- `getFirstPowerLevelMainlineEvent`: returns (position, steps); the search continues in the caller's loop
-    after a recursive call returns, exactly as the closure in the Go code does. -/
-def firstMainline (authMap mainline : List Event) : Nat → Event → Nat × Nat → Nat × Nat
-  | 0, _, st => st
-  | fuel + 1, e, st =>
+    after a recursive call returns, exactly as the closure in the Go code does.  `path` = the closure's `visiting`
+    set, as in `mainlineIter`: a power-levels auth event that is not on the mainline and is already being searched is
+    skipped (no step is counted for it). -/
+def firstMainline (authMap mainline : List Event) : Nat → List ID → Event → Nat × Nat → Nat × Nat
+  | 0, _, _, st => st
+  | fuel + 1, path, e, st =>
     let rec go (ps : List Event) (st : Nat × Nat) : Nat × Nat :=
       match ps with
       | [] => st
@@ -285,11 +296,13 @@ def firstMainline (authMap mainline : List Event) : Nat → Event → Nat × Nat
         if !isPLEvent p then go rest st
         else match mainlinePos mainline p.eventID with
           | some pos => (pos, st.2)          -- found: this invocation returns
-          | none => go rest (firstMainline authMap mainline fuel p (st.1, st.2 + 1))
+          | none =>
+            if path.contains p.eventID then go rest st
+            else go rest (firstMainline authMap mainline fuel (p.eventID :: path) p (st.1, st.2 + 1))
     go (e.authEventIDs.filterMap (findByID authMap)) st
 
 def otherKey (authMap mainline : List Event) (e : Event) : OtherKey :=
-  let (pos, steps) := firstMainline authMap mainline (authMap.length + 2) e (0, 0)
+  let (pos, steps) := firstMainline authMap mainline (authMap.length + 2) [] e (0, 0)
   { pos := pos, steps := steps, ts := e.originServerTS, id := e.eventID }
 
 /-- `mainlineOrdering` -/
@@ -341,16 +354,18 @@ def stateNeeded (e : Event) : Needed :=
 
 /-! ## Iterative auth checks -/
 
-/-- the event's own non-rejected auth events of the wanted (type, state_key): the last match wins -/
-def fromAuthEvents (authMap : List Event) (rejected : List ID) (e : Event) (t k : Bytes) : Option Event :=
-  ((e.authEventIDs.filter (fun id => !rejected.contains id)).filterMap (findByID authMap)).foldl
-    (fun acc a => if a.type == t && a.stateKeyEquals k then some a else acc) none
+/-- the event's own non-rejected auth events of the wanted (type, state_key), in the order the event lists them:
+    `addFromAuthEventsIfNotRejected` calls `AddEvent` for EVERY match, so the last one ends up in the slot and the room ID
+    of every one is recorded in the provider (`Provider.ofEvents`), which matters to `Valid()` -/
+def fromAuthEvents (authMap : List Event) (rejected : List ID) (e : Event) (t k : Bytes) : List Event :=
+  ((e.authEventIDs.filter (fun id => !rejected.contains id)).filterMap (findByID authMap)).filter
+    (fun a => a.type == t && a.stateKeyEquals k)
 
 def lookupState (s : State) (t k : Bytes) : Option Event :=
   -- resolvedMembers / resolvedThirdPartyInvites never hold an empty state key
   if (t == b!"m.room.member" || t == b!"m.room.third_party_invite") && k.isEmpty then none else s.get t k
 
-/-- the provider `authAndApplyEvents` builds for one event -/
+/-- the events `authAndApplyEvents` adds to the provider for one event, in the order it adds them -/
 def providerFor (authMap : List Event) (rejected : List ID) (s : State) (e : Event) : List Event :=
   let n := stateNeeded e
   let want : List (Bytes × Bytes) :=
@@ -359,8 +374,8 @@ def providerFor (authMap : List Event) (rejected : List ID) (s : State) (e : Eve
     (if n.powerLevels then [(b!"m.room.power_levels", [])] else []) ++
     n.member.map (fun m => (b!"m.room.member", m)) ++
     n.thirdPartyInvite.map (fun t => (b!"m.room.third_party_invite", t))
-  want.filterMap (fun tk => match lookupState s tk.1 tk.2 with
-    | some r => some r
+  want.flatMap (fun tk => match lookupState s tk.1 tk.2 with
+    | some r => [r]
     | none => fromAuthEvents authMap rejected e tk.1 tk.2)
 
 /-- `authAndApplyEvents` -/
